@@ -5,7 +5,7 @@
    between any pair of contiguous slices. *)
 From Coq Require Import QArith ZArith List Bool Arith.
 From LV Require Import Align.DP Align.Calign Align.LibScore Align.Opt Align.OptProofs
-  Align.Malign Align.MalignOptProofs Align.SelfDist Align.SelfDistShipped.
+  Align.Malign Align.MalignOptProofs Align.LevProofs Align.SelfDist Align.SelfDistShipped.
 From LVGen Require Import Scorers.
 Import ListNotations.
 Local Open Scope Q_scope.
@@ -98,6 +98,18 @@ Theorem C03_edit_dist_bounds :
      Z.max (Z.of_nat (length A)) (Z.of_nat (length B)))%Z.
 Proof. exact edit_dist_bounds. Qed.
 Print Assumptions C03_edit_dist_bounds.
+
+(* hence edit_dist is a metric on sequences *)
+Theorem C03_edit_dist_metric :
+  forall (A B C : list Z),
+    (0 <= edit_dist A B)%Z /\ (edit_dist A B = 0%Z <-> A = B) /\
+    edit_dist A B = edit_dist B A /\ (edit_dist A C <= edit_dist A B + edit_dist B C)%Z.
+Proof.
+  exact (fun A B C => conj (edit_dist_nonneg A B)
+    (conj (conj (edit_dist_zero_eq A B) (fun E => eq_ind A (fun X => edit_dist A X = 0%Z) (edit_dist_self A) B E))
+    (conj (edit_dist_sym A B) (edit_dist_triangle A B C)))).
+Qed.
+Print Assumptions C03_edit_dist_metric.
 
 (* Self-distance: for EVERY shipped sound-class model with a scoring matrix (the list
    [shipped_scorers] and its finite obligation are regenerated from /repo/src/lingpy/data/models/*/matrix
